@@ -61,7 +61,7 @@ mod verif_kani_quoting {
 }
 '''},
     "harnesses": {
-        "non_quoted_token_ascii": {"bound": "atoms of at most 4 characters over ASCII (bounded: longer atoms repeat the same per-character tail test)"},
+        "non_quoted_token_ascii": {"tier": "thorough", "bound": "atoms of at most 4 characters over ASCII (bounded: longer atoms repeat the same per-character tail test)"},
         "char_to_string_named_escapes": {},
     },
 }
